@@ -1,5 +1,7 @@
 import MdsVerif.Proofs.Slice
 import MdsVerif.Proofs.Partition
+import MdsVerif.Proofs.Rotate
+import MdsVerif.Model.Queue
 /-!
 # C17 — the slice utilities rearrange and partition exactly as documented
 
@@ -14,7 +16,7 @@ and `Partition(vs, keep)` for `len(vs) = 0` both return `vs` itself — and the
 theorems say so explicitly.
 -/
 namespace MdsVerif.Props.C17
-open MdsVerif.Model.Slice MdsVerif.Proofs.Slice MdsVerif.Proofs.Partition
+open MdsVerif.Model.Slice MdsVerif.Proofs.Slice MdsVerif.Proofs.Partition MdsVerif.Proofs.Rotate
 variable {α : Type}
 
 /-! ## Partition -/
@@ -63,6 +65,88 @@ example : partition (fun v : Int => v % 2 == 0) [900, 6, 1, 3, 2, 8, 4, 5, 901, 
 /-- the empty slice keeps its spare capacity -/
 example : partition (fun v : Int => v % 2 == 0) [900, 901, 902] ⟨1, 0, 2⟩ = .ok ([900, 901, 902], ⟨1, 0, 2⟩) := by
   decide
+
+/-! ## Rotate -/
+
+/-- **Rotate(ss, k)** on the executable model (the Go loops: `sliceCheck`, early return, `gcd`,
+cycle chasing): for every `-n ≤ k ≤ n` the call returns (no panic, the loops terminate within
+their fuel), the length is unchanged and the element at index `i` has moved to index
+`(i + k) mod n`, for every `i`; for every other `k` it panics. -/
+theorem rotate_spec [Inhabited α] (ss : List α) (k : Int) :
+    (-(ss.length : Int) ≤ k ∧ k ≤ ss.length →
+      ∃ r, rotateW ss k = .ok r ∧ r.length = ss.length ∧
+        ∀ i, i < ss.length → r[(((i : Int) + k) % (ss.length : Int)).toNat]? = ss[i]?) ∧
+    (k < -(ss.length : Int) ∨ (ss.length : Int) < k → rotateW ss k = .panic "offset out of range") := by
+  refine ⟨fun hk => ?_, rotateW_panic ss k⟩
+  have hle : normK ss.length k ≤ ss.length := by unfold normK; split <;> omega
+  rw [rotateW_eq ss k hk]
+  by_cases he : normK ss.length k = 0 ∨ normK ss.length k = ss.length
+  · rw [if_pos he]
+    refine ⟨ss, rfl, rfl, fun i hi => ?_⟩
+    rw [idx_norm ss.length k hk i]
+    rcases he with he | he
+    · rw [he, Nat.add_zero, Nat.mod_eq_of_lt hi]
+    · rw [he, Nat.add_mod_right, Nat.mod_eq_of_lt hi]
+  · rw [if_neg he]
+    obtain ⟨r, hr, hlen, hspec⟩ := rotCore_spec ss (normK ss.length k) (by omega) (by omega)
+    rw [hr]
+    refine ⟨r, rfl, hlen, fun i hi => ?_⟩
+    rw [idx_norm ss.length k hk i]
+    exact hspec i hi
+
+/-- `Rotate` on a slice of a backing array: only the window `vs[0..len)` is written -/
+theorem rotate_mem_spec [Inhabited α] (mem : List α) (h : Hdr) (hw : h.WF mem.length) (k : Int)
+    (hk : -(h.len : Int) ≤ k ∧ k ≤ h.len) :
+    ∃ mem', rotate mem h k = .ok mem' ∧ mem'.length = mem.length ∧
+      (∀ i, i < h.len → (window mem' h)[(((i : Int) + k) % (h.len : Int)).toNat]? = (window mem h)[i]?) ∧
+      mem'.take h.off = mem.take h.off ∧
+      mem'.drop (h.off + h.len) = mem.drop (h.off + h.len) := by
+  have hwl := window_length mem h hw
+  obtain ⟨r, hr, hlen, hspec⟩ := (rotate_spec (window mem h) k).1 (by rw [hwl]; exact hk)
+  rw [hwl] at hlen hspec
+  refine ⟨store mem h r, by simp [rotate, hr, Res.map], store_length mem h hw r hlen, ?_,
+    store_take mem h hw r, store_drop mem h hw r hlen⟩
+  rw [window_store mem h hw r hlen]
+  exact hspec
+
+/-- non-vacuity: the examples of the documentation, and a rotation with `gcd(k, n) = 2` cycles -/
+example : rotateW ["a", "b", "c", "d"] 1 = .ok ["d", "a", "b", "c"]
+    ∧ rotateW ["a", "b", "c", "d"] (-1) = .ok ["b", "c", "d", "a"]
+    ∧ rotateW [0, 1, 2, 3, 4, 5] (4 : Int) = .ok [2, 3, 4, 5, 0, 1]
+    ∧ rotateW [0, 1, 2] (4 : Int) = .panic "offset out of range" := by decide
+
+/-- **bridge to C07**: `queue.Queue` rotates its buffer with `slice.Rotate(vs, -head)`;
+`Model.Queue` uses the specification `rotl l k = l.drop k ++ l.take k` in its place.  The executable
+Rotate model with argument `-k`, `0 < k < len l`, computes exactly that list. -/
+theorem rotate_neg_eq_rotl [Inhabited α] (l : List α) (k : Nat) (h0 : 0 < k) (hk : k < l.length) :
+    rotateW l (-(k : Int)) = .ok (MdsVerif.Model.Queue.rotl l k) := by
+  have hr : -(l.length : Int) ≤ -(k : Int) ∧ -(k : Int) ≤ l.length := by omega
+  have hn : normK l.length (-(k : Int)) = l.length - k := by unfold normK; split <;> omega
+  rw [rotateW_eq l _ hr, hn, if_neg (by omega)]
+  obtain ⟨r, hrr, hlen, hspec⟩ := rotCore_spec l (l.length - k) (by omega) (by omega)
+  rw [hrr]
+  simp only [Res.ok.injEq]
+  unfold MdsVerif.Model.Queue.rotl
+  apply List.ext_getElem?
+  intro p
+  by_cases hp : p < l.length
+  · by_cases hp1 : p < l.length - k
+    · have e : (p + k + (l.length - k)) % l.length = p := by
+        have : p + k + (l.length - k) = p + l.length := by omega
+        rw [this, Nat.add_mod_right, Nat.mod_eq_of_lt hp]
+      have := hspec (p + k) (by omega)
+      rw [e] at this
+      rw [this, List.getElem?_append_left (by rw [List.length_drop]; omega), List.getElem?_drop, Nat.add_comm]
+    · have e : (p + k - l.length + (l.length - k)) % l.length = p := by
+        have : p + k - l.length + (l.length - k) = p := by omega
+        rw [this, Nat.mod_eq_of_lt hp]
+      have := hspec (p + k - l.length) (by omega)
+      rw [e] at this
+      rw [this, List.getElem?_append_right (by rw [List.length_drop]; omega), List.getElem?_take]
+      have hlt : p - (List.drop k l).length < k := by rw [List.length_drop]; omega
+      rw [if_pos hlt]
+      congr 1; rw [List.length_drop]; omega
+  · rw [List.getElem?_eq_none (by omega), List.getElem?_eq_none (by rw [List.length_append, List.length_drop, List.length_take]; omega)]
 
 /-! ## Chunks -/
 
@@ -127,7 +211,7 @@ theorem batches_spec (mem : List α) (h : Hdr) (hw : h.WF mem.length) (n : Int) 
   refine ⟨fun hn => by simp [batches, hn], fun hn => ?_⟩
   by_cases h0 : n = 0
   · subst h0
-    exact ⟨[], by simp [batches], by simp; omega, fun h => absurd h (by omega), by simp, by simp⟩
+    exact ⟨[], by simp [batches], by simp, fun h => absurd h (by omega), by simp, by simp⟩
   by_cases hl0 : h.len = 0
   · refine ⟨[], ?_, by simp; omega, fun _ => ?_, by simp, by simp⟩
     · simp only [batches, Int.not_lt.mpr hn, h0, if_false]
@@ -279,13 +363,13 @@ theorem at_spec [Inhabited α] (ss : List α) (i : Int) :
     · split at hr
       · cases hr
       · rename_i h1 h2
-        simp only [atIdx, indexCheck]
-        split
-        · rename_i hneg
-          have : ¬ (i + (ss.length : Int) ≥ 0 ∧ i + (ss.length : Int) < ss.length) := by omega
-          simp [this]
+        by_cases hneg : i < 0
+        · have : ¬ (i + (ss.length : Int) ≥ 0 ∧ i + (ss.length : Int) < ss.length) := by omega
+          simp only [atIdx, indexCheck, if_pos hneg, decide_eq_false this]
+          rfl
         · have : ¬ (i ≥ 0 ∧ i < (ss.length : Int)) := by omega
-          simp [this]
+          simp only [atIdx, indexCheck, if_neg hneg, decide_eq_false this]
+          rfl
 
 /-- **PtrAt(ss, i)**: a pointer to the designated cell of the backing array — reading through it
 gives the designated element of `ss` — and nil exactly when `i` is out of range (never a panic) -/
@@ -317,12 +401,13 @@ theorem ptrAt_spec (mem : List α) (h : Hdr) (i : Int) :
     · cases hr
     · split at hr
       · cases hr
-      · simp only [ptrAt, indexCheck]
-        split
+      · by_cases hneg : i < 0
         · have : ¬ (i + (h.len : Int) ≥ 0 ∧ i + (h.len : Int) < h.len) := by omega
-          simp [this]
+          simp only [ptrAt, indexCheck, if_pos hneg, decide_eq_false this]
+          rfl
         · have : ¬ (i ≥ 0 ∧ i < (h.len : Int)) := by omega
-          simp [this]
+          simp only [ptrAt, indexCheck, if_neg hneg, decide_eq_false this]
+          rfl
 
 example : atIdx [10, 20, 30] (-1 : Int) = .ok 30 ∧ atIdx [10, 20, 30] (2 : Int) = .ok 30
     ∧ atIdx [10, 20, 30] (-4 : Int) = .panic "index out of range"
